@@ -1,3 +1,4 @@
+import Mdsort.Proofs.Opts
 import Mdsort.Proofs.Interp
 import Mdsort.Proofs.Captures
 import Mdsort.Proofs.MainTextMacros
@@ -383,6 +384,33 @@ theorem C12_macro_definitions (ms : List Macro) (name v : Bytes) (lno : Nat) :
   ⟨fun sticky hp hn => Proofs.MainText.mt_insert_new ms name v lno sticky hp hn,
    fun m hf hs hd hp => Proofs.MainText.mt_insert_sticky ms name v lno m hf hs hd hp,
    fun sticky hex hno => Proofs.MainText.mt_insert_twice ms name v lno sticky hex hno⟩
+
+/-! ## `-D name=value` on the command line (package ce13) -/
+
+/-- The `-D` options of an accepted command line (`Model.parseArgs`, Model/Opts.lean) always form a macro table
+(`macrosOfDefs` - the table `parseConfig` starts from - does not fail: the run from `argv` never meets `invalidDefs`
+after the option loop), and in it every `-D name=value` is the value of `${name}` and OVERRIDES the file: a definition
+`name = "v2"` on any line of the configuration is accepted and dropped, every name keeps its value
+(`C12_macro_definitions`, second part, instantiated for every name given with `-D`). -/
+theorem C12_D_overrides (permute : Bool) (args : List Bytes) (o : Opts) (h : parseArgs permute args = .ok o) :
+    ∃ ms, macrosOfDefs o.defs [] = some ms ∧
+      ∀ n v, (n, v) ∈ o.defs →
+        Spec.macroValue ms n = some v ∧
+        ∀ v2 lno, ∃ ms', macrosInsert ms n v2 lno false = some ms' ∧ Spec.macroValue ms' = Spec.macroValue ms := by
+  obtain ⟨ms, hms⟩ := Proofs.Opts.parseArgs_defs_table permute args o h
+  refine ⟨ms, hms, fun n v hm => ?_⟩
+  obtain ⟨_, hp, hf⟩ := Proofs.Opts.macrosOfDefs_find o.defs [] ms hms n v hm
+  refine ⟨by simp only [Spec.macroValue, hf]; rfl, fun v2 lno => ?_⟩
+  exact Proofs.MainText.mt_insert_sticky ms n v2 lno _ hf rfl rfl hp
+
+open Proofs.MainText in
+/-- Non-vacuity, from `argv` to the strings of the tree: `mdsort -D a=D` over a file that also defines `a`. -/
+example :
+    (match parseArgs true ["-n".toUTF8.toList, "-D".toUTF8.toList, "a=D".toUTF8.toList] with
+     | .ok o => mt_strings (parseConfig [] o.defs (fun _ => true)
+         "a = \"1\"\nmaildir \"q\" { match all move \"${a}\" }".toUTF8.toList) == some [(["q".toUTF8.toList], ["D".toUTF8.toList])]
+     | .error _ => false) = true := by
+  decide +kernel
 
 /-! Non-vacuity and witnesses, on whole configuration files through `parseConfig` (the strings of the
 accepted trees are read with `mt_strings`: per block the maildir paths and the strings of its rules). -/
